@@ -76,6 +76,11 @@ def gen_cases(ctx):
                 if tf == "none" and isinstance(tr, float) and abs(tr * 2 - round(tr * 2)) < 1e-9 and tc is None:
                     for tie in (1, 2, 3):
                         yield {"tc": tc, "tr": tr, "traffic": tf, "progress": [], "raise_at": None, "tie": tie}
+                        yield {"tc": tc, "tr": tr, "traffic": tf, "progress": [], "raise_at": None, "tie": tie, "inject": "timer"}
+                        # ... and a progress notification on a boundary, the response a little later
+                        if tr + 0.2 < T:
+                            yield {"tc": None, "tr": round(tr + 0.2, 3), "traffic": "none", "progress": [[tr, "right", 0]],
+                                   "raise_at": None, "cb": True, "tie": tie, "inject": "timer"}
     # 1b. deadlines off the poll grid
     for Tx in (0.7, 1.3):
         gx = sorted({0.0, 0.2, 0.45, 0.5, 0.55, Tx - 0.1, Tx - 0.01, Tx, Tx + 0.01, Tx + 0.1, round((Tx + (int(Tx / 0.5) + 1) * 0.5) / 2, 3),
@@ -195,6 +200,18 @@ def exec_case(ctx, case: Dict[str, Any]) -> None:
             if isinstance(tc, float):
                 events.append((tc, 3, "CANCEL"))
             events.sort(key=lambda e: (e[0], e[1]))
+            if case.get("inject") == "timer":
+                # every event is a timer callback of its own (a transport's reader handing a message over from a loop
+                # callback): at an instant where the request's poll slice ends as well, the two timers run in the same pass
+                # of the loop, in either order (tie seeds)
+                def fire(w):
+                    if w == "CANCEL":
+                        token.cancel()
+                    else:
+                        pipe.srv_send.send_nowait(parse_message(w))
+                for t, _, w in events:
+                    loop.call_at(max(t, loop.time()), fire, w)
+                return
             for t, _, w in events:
                 await vsleep_until(t)
                 if w == "CANCEL":
